@@ -52,6 +52,33 @@ Theorem C14_check_always_true_for_ascii : forall cw alnum lbc custom_sp o,
   forall t, refind_b cw alnum lbc custom_sp o t = true.
 Proof. exact refind_b_ascii_builtin. Qed.
 
+(* the optimal-fit clause for any separator (reference oracle): "whenever no line of the first
+   result overflows the width", from the computable per-text hypothesis [refind_opt_b]
+   (nothing is asked of empty or overflowing lines; a line shorter in bytes than the width
+   must not end in a space; any other line must be re-found, alone, as fragments that end
+   without whitespace and whose cached widths fit).  No hypothesis on the separator, on the
+   oracle, or on escape sequences; for the ASCII separator and ESC-free text the check is
+   always true (C14_optimal_check_always_true_for_ascii), so C14_optimal_fit is the special
+   case; Proofs/IdemUnicodeOpt.v shows by examples that neither the check nor the
+   no-overflow premise can be dropped. *)
+From TW Require Import IdemUnicodeOpt.
+Theorem C14_optimal_fit_any_separator : forall cw alnum lbc custom_sp o pen,
+  cw SP = 1 -> o_alg o = OptimalFit pen -> 0 < p_nline pen ->
+  SplitterOK custom_sp -> EmptyIndents o -> o_spl o <> SplCustom ->
+  forall t r,
+    refind_opt_b cw alnum lbc custom_sp o t = true ->
+    fill cw alnum lbc custom_sp ofit_dp o t = Some r ->
+    (forall l, In l (split_le (o_le o) r) -> dw cw l <= o_width o) ->
+    fill cw alnum lbc custom_sp ofit_dp o r = Some r.
+Proof. exact fill_idem_refind_opt. Qed.
+
+Theorem C14_optimal_check_always_true_for_ascii : forall cw alnum lbc custom_sp o,
+  cw SP = 1 -> SplitterOK custom_sp -> EmptyIndents o -> o_sep o = SepAscii -> o_spl o <> SplCustom ->
+  forall t, Forall (fun c => c <> ESC) t -> refind_opt_b cw alnum lbc custom_sp o t = true.
+Proof. exact refind_opt_b_ascii_builtin. Qed.
+
+Print Assumptions C14_optimal_fit_any_separator.
+Print Assumptions C14_optimal_check_always_true_for_ascii.
 Print Assumptions C14_any_separator.
 Print Assumptions C14_check_meaning.
 Print Assumptions C14_check_always_true_for_ascii.
